@@ -53,20 +53,35 @@ func init() {
 		Run: run,
 		Gate: func(tier string) map[string]int {
 			return map[string]int{
-				"signed_frontier": 100, "signed_homestead": 100, "signed_eip155": 300,
-				"signed_v_exceeds_8_bits": 100, "signed_v_exceeds_64_bits": 50,
-				"key_boundary_scalar": 16, "refsigned_attributed": 500,
-				"signature_verified_by_reference": 500,
-				"field_mutants": 30000, "mutant_rejected": 5000, "mutant_other_address": 5000,
-				"bitflip_decoded": 50000, "bitflip_all_bits_cases": 100, "lattice_probes": 50000,
-				"must_reject_probes": 20000,
-				"high_s_probed_homestead": 100, "high_s_probed_eip155_protected": 100, "high_s_twin_frontier_same_sender": 50,
-				"foreign_signer_queries": 2000, "foreign_chain_probed": 1000,
-				"rlp_roundtrip": 500, "json_roundtrip": 500,
-				"cache_cross_signer_queries": 2000, "cache_primed_by_string": 100,
-				"makesigner_heights": 100,
-				"pool_variant_probed": 500, "pool_original_accepted": 30,
-				"block_variant_probed": 500, "block_original_accepted": 30,
+				"signed_frontier":                  100,
+				"signed_homestead":                 100,
+				"signed_eip155":                    300,
+				"signed_v_exceeds_8_bits":          100,
+				"signed_v_exceeds_64_bits":         50,
+				"key_boundary_scalar":              16,
+				"refsigned_attributed":             500,
+				"signature_verified_by_reference":  500,
+				"field_mutants":                    30000,
+				"mutant_rejected":                  5000,
+				"mutant_other_address":             5000,
+				"bitflip_decoded":                  50000,
+				"bitflip_all_bits_cases":           100,
+				"lattice_probes":                   50000,
+				"must_reject_probes":               20000,
+				"high_s_probed_homestead":          100,
+				"high_s_probed_eip155_protected":   100,
+				"high_s_twin_frontier_same_sender": 50,
+				"foreign_signer_queries":           2000,
+				"foreign_chain_probed":             1000,
+				"rlp_roundtrip":                    500,
+				"json_roundtrip":                   500,
+				"cache_cross_signer_queries":       2000,
+				"cache_primed_by_string":           100,
+				"makesigner_heights":               100,
+				"pool_variant_probed":              500,
+				"pool_original_accepted":           30,
+				"block_variant_probed":             500,
+				"block_original_accepted":          30,
 			}
 		},
 		AnchorFiles: []string{"/core/types/transaction_signing.go", "/core/types/transaction.go", "/core/types/gen_tx_json.go", "/crypto/crypto.go", "/crypto/signature_nocgo.go"},
